@@ -170,6 +170,19 @@ def final_oracle(trace, reopen=True):
     return bad
 
 
+EXHAUSTIVE_TEMPLATES = [
+    # one table: a compaction pass against a DELETE (both known mechanisms live here)
+    "(case e1 (gate cmd.begin txn.pinned txn.locked vm.commit.begin vm.committed cp.pinned cp.locked)"
+    " (setup create:t1 ins:t1:1+2 ins:t1:3) (actors (compact) (del:t1:eq:1)) (sched ) (rng 0) (sticky 0) (script ))",
+    # two tables: the stale-snapshot window
+    "(case e2 (gate cmd.begin txn.pinned vm.commit.begin vm.committed cp.pinned cp.locked)"
+    " (setup create:t1 create:t2 ins:t1:1+2 ins:t1:3 ins:t2:101 ins:t2:102) (actors (compact) (del:t2:eq:101)) (sched ) (rng 0) (sticky 0) (script ))",
+    # compaction against an INSERT
+    "(case e3 (gate cmd.begin txn.pinned vm.commit.begin vm.committed cp.pinned cp.locked)"
+    " (setup create:t1 ins:t1:1+2 ins:t1:3) (actors (compact) (ins:t1:7)) (sched ) (rng 0) (sticky 0) (script ))",
+]
+
+
 def run(ck):
     n = 200 if ck.quick() else 1500
     if not S.lean_and_build(ck, "RlModel.Thm.C09", THEOREMS, "drv_c09", "c09"):
@@ -187,12 +200,12 @@ def run(ck):
     if missing:
         ck.report("harness:no-trace", "the harness produced no trace for %d case(s)" % len(missing),
                   replay={"case": missing[0], "harness_tail": err[1]}, found_input=False)
-    for c, t, m in res:
+    def judge(c, t, m):
         if t is None:
-            continue
+            return
         if t.deadlock != "none":
             ck.report("sched:deadlock", "schedule did not finish: %s" % t.deadlock, replay={"case": c, "trace": t.line})
-            continue
+            return
         cnt["compared"] += 1
         d = S.compare(t, m)
         if d:
@@ -209,7 +222,7 @@ def run(ck):
                 if b["table"] == "*":
                     ck.report("reopen:fails", "the database does not reopen after the schedule (%s)" % t.reopen_status,
                               replay={"case": c, "trace": t.line})
-                    continue
+                    return
                 mech = classify(t, ids.get(b["table"], "?"))
                 for k in mech:
                     reasons[k] = reasons.get(k, 0) + 1
@@ -234,6 +247,16 @@ def run(ck):
                       replay={"case": c, "diff": d, "trace": t.line}, found_input=bool(bad) and False)
         if any(e[2] == "vm.committed" and e[3] == "cp" for _, e in t.events()) and len(acked_dml(t)) > 1:
             nontrivial.add(t.driver_line().split("(steps", 1)[1][:4000])
+    for c, t, m in res:
+        judge(c, t, m)
+    exh = {}
+    if not ck.quick():
+        for k, tmpl in enumerate(EXHAUSTIVE_TEMPLATES):
+            n_done, n_left, n_cut = S.exhaustive(ck, "c09", "drv_c09", tmpl, 8000, judge)
+            exh["template%d" % k] = {"schedules": n_done, "unexplored_frontier": n_left}
+            ck.log("exhaustive template %d: %d schedules, frontier left %d" % (k, n_done, n_left))
+            if n_left:
+                ck.notes.append("exhaustive template %d not completed within the cap" % k)
     ck.coverage.update({
         "evaluations": len(traces),
         "distinct_nontrivial": len(nontrivial),
@@ -243,6 +266,7 @@ def run(ck):
         "model_vs_oracle": dict(mvo, note="the model predicts the same lost deletes as the implementation shows (reason tags below)"),
         "reason_tags": reasons,
         "distribution": S.summarize_distribution(traces),
+        "exhaustive": exh,
     })
     return ck.finish(level="proof", trusted_base=S.TRUSTED)
 
